@@ -41,6 +41,16 @@ def _case(draw):
     depth = draw(st.integers(0, 4))
     spec = draw(specs.spec_strategy(depth=depth, sat=draw(st.booleans()), alias=False,
                                     derived=draw(st.booleans())))
+    if draw(st.integers(0, 9)) == 0:
+        # alphabet / contains / len that contradict each other, declared in a drawn order
+        st_ = {"t": "str", "alphabet": draw(st.sampled_from(["abn", "a", "", "xyz"])),
+               "substr": draw(st.sampled_from(["banana!", "b", "", "zz"]))}
+        if draw(st.booleans()):
+            st_["len"] = draw(specs.len_free())
+        st_["order"] = list(draw(st.permutations([k for k in ("len", "alphabet", "substr") if k in st_])))
+        spec = draw(st.sampled_from([st_, {"t": "list", "form": "typed", "elem": st_},
+                                     {"t": "dict", "entries": [{"key": "s", "opt": False, "spec": st_}],
+                                      "relaxed": False}]))
     if draw(st.integers(0, 15)) == 0:
         nf = draw(_nonfinite())
         spec = draw(st.sampled_from([nf, {"t": "list", "form": "exact", "elems": [nf, spec]},
@@ -70,7 +80,8 @@ def check(case, ctx):
     try:
         S = specs.build(spec)
     except DeclarationError as e:
-        raise HarnessError(f"undeclarable spec {spec!r}: {e}")
+        ctx.skip_undeclarable(None, e)
+        return
     ns = {"schema": d42.schema, "optional": d42.optional, "UUID": uuid.UUID, "datetime": datetime}
     try:
         t = repr(S)
@@ -92,6 +103,17 @@ def check(case, ctx):
         raise Violation("roundtrip-not-equal", f"eval(repr(S)) == S is False for {t!r}")
     if repr(S2) != t:
         raise Violation("roundtrip-repr-differs", f"{t!r} vs {repr(S2)!r}")
+    # the same live object at two nesting depths (and printed on its own first): text must not depend on
+    # what was printed before, and the nested form must round-trip as well
+    try:
+        W = d42.schema.dict({"outer": S, "inner": d42.schema.list([S, d42.schema.dict({"deep": S})])})
+        tw = repr(W)
+        W2 = eval(tw, dict(ns))
+    except Exception as e:  # noqa
+        raise Violation("shared-node-repr", f"schema reused at two depths: {e!r} (first repr: {t!r})")
+    if canon.canon(W2) != canon.canon(W) or repr(W2) != tw or repr(S) != t:
+        raise Violation("shared-node-roundtrip", f"a schema reused at two depths does not round-trip: {tw!r} "
+                                                 f"vs rebuilt {repr(W2)!r}")
     for lab in specs.node_labels(spec):
         ctx.label(lab)
     nonfinite = any(isinstance(s.get(k), float) and math.isinf(s[k])
